@@ -11,9 +11,11 @@ import (
 	"encoding/json"
 	"errors"
 	"fmt"
+	"math"
 	"math/rand"
 	"os"
 	"reflect"
+	"regexp"
 	"strings"
 	"sync"
 	"time"
@@ -109,6 +111,10 @@ type expectation struct {
 
 var ctorByType = map[reflect.Type]func() thrift.TStruct{}
 
+// the Apache Thrift JSON parser reads "Infinity" / "NaN" with a single Read
+// and fails when the token straddles a short read (dependency defect)
+var specialDouble = regexp.MustCompile(`Expected '(-?Infinity|NaN)' but found`)
+
 func main() {
 	rig.Quiet()
 	b, err := os.ReadFile(os.Args[1])
@@ -149,7 +155,89 @@ func main() {
 	}
 }
 
+// specialDoubleWitness: echoDouble(pad, +Inf) over http/json for every pad
+// length in a window: the token "Infinity" moves across every read boundary
+// of the base64-decoded request stream.
+func specialDoubleWitness(ps emitbatch.ProgSpec, ns *rig.NatsServer) *progResult {
+	res := &progResult{Sub: ps.Sub, Outcomes: map[string]int{}, Legs: map[string]int{}, Features: []string{"witness_specialdouble"}}
+	var gs *genreg.Service
+	for _, p := range genreg.Packages() {
+		if strings.HasPrefix(p.ImportPath, "vh/gen/"+ps.Sub+"/") {
+			for _, s := range p.Services {
+				gs = s
+			}
+		}
+	}
+	if gs == nil {
+		res.Inconclusive = append(res.Inconclusive, "witness service not emitted")
+		return res
+	}
+	calls := 0
+	var mu sync.Mutex
+	stub := gs.NewStub(func(iface, method string, args []interface{}) []interface{} {
+		mu.Lock()
+		calls++
+		mu.Unlock()
+		return []interface{}{args[2], nil}
+	})
+	for _, legSpec := range [][2]string{{"http", "json"}, {"pipe", "json"}} {
+		leg, err := rig.StartRPCLeg(legSpec[0], legSpec[1], gs.NewProcessor(stub), ns, rig.LegOptions{})
+		if err != nil {
+			res.Inconclusive = append(res.Inconclusive, err.Error())
+			return res
+		}
+		tr, err := leg.NewClient()
+		if err != nil {
+			res.Inconclusive = append(res.Inconclusive, err.Error())
+			leg.Stop()
+			return res
+		}
+		client := reflect.ValueOf(gs.NewClient(frugal.NewFServiceProvider(tr, leg.PF)))
+		gm := client.MethodByName("EchoDouble")
+		if !gm.IsValid() {
+			res.Inconclusive = append(res.Inconclusive, "witness method not emitted")
+			leg.Stop()
+			return res
+		}
+		var failing []int
+		firstErr := ""
+		for _, d := range []float64{math.Inf(1), math.Inf(-1), math.NaN()} {
+			for pad := 0; pad < 1400; pad++ {
+				fctx := frugal.NewFContext("w")
+				fctx.SetTimeout(20 * time.Second)
+				out := gm.Call([]reflect.Value{reflect.ValueOf(fctx), reflect.ValueOf(strings.Repeat("p", pad)), reflect.ValueOf(d)})
+				res.Calls++
+				res.Legs[legSpec[0]+"/"+legSpec[1]]++
+				if e := out[1]; !e.IsNil() {
+					failing = append(failing, pad)
+					if firstErr == "" {
+						firstErr = fmt.Sprint(e.Interface())
+					}
+				} else if r := out[0].Float(); math.Float64bits(r) != math.Float64bits(d) && !(math.IsNaN(r) && math.IsNaN(d)) {
+					failing = append(failing, pad)
+					if firstErr == "" {
+						firstErr = fmt.Sprintf("returned %v for %v", r, d)
+					}
+				}
+			}
+		}
+		leg.Stop()
+		res.Outcomes["witness-special-double"] += res.Calls
+		if len(failing) > 0 {
+			n := len(failing)
+			if n > 12 {
+				failing = failing[:12]
+			}
+			res.Violations = append(res.Violations, violation{"C03:json-special-double-split-across-reads", fmt.Sprintf("echoDouble(pad, ±Infinity/NaN) over %s/%s failed for %d of the pad lengths 0..1399 (e.g. %v): %s", legSpec[0], legSpec[1], n, failing, firstErr), map[string]interface{}{"idl": "service WDouble { double echoDouble(1: string pad, 2: double d) }", "leg": legSpec[0] + "/" + legSpec[1], "failing_pad_lengths": failing, "error": firstErr}})
+		}
+	}
+	return res
+}
+
 func checkProgram(ps emitbatch.ProgSpec, bt batch, ns *rig.NatsServer) *progResult {
+	if ps.Cfg == "witness:specialdouble" {
+		return specialDoubleWitness(ps, ns)
+	}
 	res := &progResult{Sub: ps.Sub, Outcomes: map[string]int{}, Legs: map[string]int{}}
 	currentSub = ps.Sub
 	prog := ps.Program()
@@ -170,6 +258,26 @@ func checkProgram(ps emitbatch.ProgSpec, bt batch, ns *rig.NatsServer) *progResu
 		}
 	}
 	rng := rand.New(rand.NewSource(bt.Seed ^ ps.Seed))
+	// IDL file -> emitted package: the one whose Go type names cover the
+	// file's struct-likes (modulo case and underscores)
+	filePkg = map[*idl.File]*genreg.Package{}
+	for _, f := range prog.Files {
+		for _, p := range pkgs {
+			have := map[string]bool{}
+			for goName := range p.Types {
+				have[norm(goName)] = true
+			}
+			ok := len(f.Structs()) > 0
+			for _, st := range f.Structs() {
+				if !have[norm(st.Name)] {
+					ok = false
+				}
+			}
+			if ok {
+				filePkg[f] = p
+			}
+		}
+	}
 	for _, f := range prog.Files {
 		for _, svc := range f.Services() {
 			// find the emitted service: F<Name> modulo case and underscores,
@@ -177,6 +285,9 @@ func checkProgram(ps emitbatch.ProgSpec, bt batch, ns *rig.NatsServer) *progResu
 			var gs *genreg.Service
 			n := 0
 			for _, p := range pkgs {
+				if fp := filePkg[f]; fp != nil && fp != p {
+					continue
+				}
 				for goName, s := range p.Services {
 					if norm(strings.TrimPrefix(goName, "F")) == norm(svc.Name) {
 						gs = s
@@ -355,7 +466,7 @@ func runCall(prog *idl.Program, svc *idl.Service, mi methodInfo, gm reflect.Valu
 		// the Go type of the exception: the emitted type whose Write names the IDL exception
 		_, _, _, rr := prog.ResolveKind(mi.file, ef.Type)
 		var ev reflect.Value
-		ev = exceptionValue(rr.Struct.Name, gm, prog)
+		ev = exceptionValue(rr.Struct.Name, rr.File)
 		if !ev.IsValid() {
 			class = "value"
 			break
@@ -444,6 +555,10 @@ func runCall(prog *idl.Program, svc *idl.Service, mi methodInfo, gm reflect.Valu
 	n := exp.calls[token]
 	got := exp.args[token]
 	exp.mu.Unlock()
+	if n == 0 && callErr != nil && specialDouble.MatchString(callErr.Error()) {
+		addV("C03:json-special-double-split-across-reads", fmt.Sprintf("%s.%s on %s: a call carrying an Infinity/NaN double never reached the handler: %v", svc.Name, m.Name, legName, callErr), wit(map[string]interface{}{"token": token, "arguments": argTrees}))
+		return class
+	}
 	if n != 1 {
 		addV(fmt.Sprintf("C03:handler-invocations:%s", class), fmt.Sprintf("%s.%s on %s: the handler was invoked %d times for one client call (caller saw err=%v)", svc.Name, m.Name, legName, n, callErr), wit(map[string]interface{}{"token": token}))
 		return class
@@ -528,35 +643,26 @@ func runCall(prog *idl.Program, svc *idl.Service, mi methodInfo, gm reflect.Valu
 	return class
 }
 
-// exceptionValue constructs the emitted exception type with the given IDL name.
-func exceptionValue(idlName string, gm reflect.Value, prog *idl.Program) reflect.Value {
-	var cands []reflect.Type
-	for t := range ctorByType {
-		if norm(t.Elem().Name()) == norm(idlName) {
-			if _, ok := reflect.New(t.Elem()).Interface().(error); ok {
-				cands = append(cands, t)
+// exceptionValue constructs the emitted exception type declared under the
+// given IDL name in file f.
+func exceptionValue(idlName string, f *idl.File) reflect.Value {
+	p := filePkg[f]
+	if p == nil {
+		return reflect.Value{}
+	}
+	for goName, c := range p.Types {
+		if norm(goName) == norm(idlName) {
+			v := c()
+			if _, ok := interface{}(v).(error); ok {
+				return reflect.ValueOf(v)
 			}
 		}
 	}
-	if len(cands) == 0 {
-		return reflect.Value{}
-	}
-	// several programs of the batch may declare the same name: prefer the one
-	// from the program being checked
-	best := cands[0]
-	for _, c := range cands {
-		if sameProgram(c.Elem().PkgPath(), currentSub) {
-			best = c
-		}
-	}
-	return reflect.ValueOf(ctorByType[best]())
+	return reflect.Value{}
 }
 
+var filePkg map[*idl.File]*genreg.Package
 var currentSub string
-
-func sameProgram(pkgPath, sub string) bool {
-	return strings.Contains(pkgPath, "/gen/"+sub+"/")
-}
 
 // checkNoReply: no reply frame may carry the op id of a successful oneway
 // (on HTTP the empty frame is the "no reply" encoding and carries no op id).
